@@ -39,6 +39,7 @@ func main() {
 	R := r.R
 	seqs := r.Scale(60, 1200)
 	for s := 0; s < seqs; s++ {
+		q := s
 		history = history[:1]
 		n := R.Range(4, 7)
 		powers := make([]int64, n)
@@ -227,6 +228,131 @@ func main() {
 			}
 			return 0
 		}
+		// ---- C08: one hostile peer message; `reject` = it fails validation, so the node's state
+		// (round state, votes, scheduled timeouts, queue) must be EXACTLY as before and it must not panic
+		// validators that may vote in absurd rounds: together below 1/3 of the power (with 2/3 of the
+		// power in one absurd round the node would rightly try to go there)
+		var byz []int
+		{
+			var acc int64
+			for _, i := range R.Perm(n) {
+				if i != me && (acc+powers[i])*3 < total {
+					byz = append(byz, i)
+					acc += powers[i]
+				}
+			}
+		}
+		hostile := func(h, rd int64, st string) {
+			v := R.Intn(n)
+			b := known()
+			t := R.Range(1, 2)
+			addr := fmt.Sprintf("%x", im.C.Addr(v))
+			op, reject, kind := "", true, ""
+			big := []int64{1 << 31, 1 << 40, 1<<62 + 5, -1, -(1 << 40)}
+			switch k := R.Intn(22); k {
+			case 0:
+				kind, op = "vote-tampered-sig", fmt.Sprintf("vote t=%d h=%d r=%d idx=%d addr=%s block=%s ok=0 peer=hx tamper=1", t, h, rd, v, addr, b)
+			case 1:
+				kind, op = "vote-other-key", fmt.Sprintf("vote t=%d h=%d r=%d idx=%d addr=%s block=%s ok=0 peer=hx signer=%d", t, h, rd, v, addr, b, (v+1)%n)
+				reject = n > 1
+				if n == 1 {
+					op = strings.Replace(op, "ok=0", "ok=1", 1)
+				}
+			case 2:
+				kind, op = "vote-index-out-of-range", fmt.Sprintf("vote t=%d h=%d r=%d idx=%d addr=%s block=%s ok=0 peer=hx", t, h, rd, []int{-1, n, n + 1, 1 << 30, -(1 << 30)}[R.Intn(5)], addr, b)
+			case 3:
+				kind, op = "vote-address-of-another-validator", fmt.Sprintf("vote t=%d h=%d r=%d idx=%d addr=%x block=%s ok=0 peer=hx", t, h, rd, v, im.C.Addr((v+1)%n), b)
+				reject = n > 1
+				if n == 1 {
+					op = strings.Replace(op, "ok=0", "ok=1", 1)
+				}
+			case 4:
+				kind, op = "vote-empty-address", fmt.Sprintf("vote t=%d h=%d r=%d idx=%d addr= block=%s ok=0 peer=hx", t, h, rd, v, b)
+			case 5:
+				kind, op = "vote-future-height", fmt.Sprintf("vote t=%d h=%d r=%d idx=%d addr=%s block=%s ok=1 peer=hx", t, h+int64(R.Range(1, 3)), rd, v, addr, b)
+			case 6:
+				kind, op = "vote-absurd-height", fmt.Sprintf("vote t=%d h=%d r=%d idx=%d addr=%s block=%s ok=1 peer=hx", t, big[R.Intn(len(big))], rd, v, addr, b)
+			case 7: // the previous height: only a precommit while waiting in NewHeight is a straggler
+				pt := R.Range(1, 2)
+				kind, op = "vote-previous-height", fmt.Sprintf("vote t=%d h=%d r=%d idx=%d addr=%s block=%s ok=1 peer=hx", pt, h-1, R.Intn(2), v, addr, b)
+				reject = !(st == "NewHeight" && pt == 2) || h == 1
+			case 8:
+				kind, op = "vote-height-zero", fmt.Sprintf("vote t=2 h=0 r=0 idx=%d addr=%s block=%s ok=1 peer=hx", v, addr, b)
+			case 9:
+				kind, op = "vote-invalid-type", fmt.Sprintf("vote t=%d h=%d r=%d idx=%d addr=%s block=%s ok=1 peer=hx", []int{0, 3, 4, 255}[R.Intn(4)], h, rd, v, addr, b)
+			case 10:
+				if len(byz) == 0 {
+					return
+				}
+				v = byz[R.Intn(len(byz))]
+				addr = fmt.Sprintf("%x", im.C.Addr(v))
+				kind, op = "vote-negative-round", fmt.Sprintf("vote t=%d h=%d r=%d idx=%d addr=%s block=%s ok=1 peer=hx", t, h, -int64(R.Range(1, 5)), v, addr, b)
+				reject = false // the round number is not validated by itself (a catch-up round is opened)
+			case 11:
+				if len(byz) == 0 {
+					return
+				}
+				v = byz[R.Intn(len(byz))]
+				addr = fmt.Sprintf("%x", im.C.Addr(v))
+				kind, op = "vote-absurd-round", fmt.Sprintf("vote t=%d h=%d r=%d idx=%d addr=%s block=%s ok=1 peer=hy%d", t, h, big[R.Intn(3)], v, addr, b, R.Intn(3))
+				reject = false
+			case 12:
+				kind, op = "proposal-wrong-height", fmt.Sprintf("proposal %s h=%d r=%d pol=-1 polblock=- signer=%d bad=0", "HB", h+int64([]int{-1, 1, 7}[R.Intn(3)]), rd, proposerIdx())
+			case 13:
+				kind, op = "proposal-wrong-round", fmt.Sprintf("proposal %s h=%d r=%d pol=-1 polblock=- signer=%d bad=0", "HB", h, rd+int64([]int{-1, 1, 1 << 33}[R.Intn(3)]), proposerIdx())
+			case 14:
+				kind, op = "proposal-bad-pol-round", fmt.Sprintf("proposal %s h=%d r=%d pol=%d polblock=- signer=%d bad=0", "HB", h, rd, []int64{rd, rd + 1, -2, -(1 << 40), 1 << 40}[R.Intn(5)], proposerIdx())
+			case 15:
+				kind, op = "proposal-bad-signature", fmt.Sprintf("proposal %s h=%d r=%d pol=-1 polblock=- signer=%d bad=1", "HB", h, rd, proposerIdx())
+			case 16:
+				kind, op = "proposal-not-from-proposer", fmt.Sprintf("proposal %s h=%d r=%d pol=-1 polblock=- signer=%d bad=0", "HB", h, rd, (proposerIdx()+1)%n)
+				reject = n > 1
+			case 17:
+				kind, op = "parts-wrong-height", fmt.Sprintf("parts %s h=%d r=%d", "HB", h+int64([]int{-1, 1, 1 << 40}[R.Intn(3)]), rd)
+			case 18:
+				kind, op = "parts-of-a-block-nobody-proposed", fmt.Sprintf("parts %s h=%d r=%d", "HB", h, rd)
+				reject = !strings.Contains(do("digest"), " pp=HB")
+			case 19:
+				kind, op = "timeout-stale", fmt.Sprintf("timeout %d %d %s", h-1, rd, st)
+			case 20:
+				kind, op = "timeout-earlier-round", fmt.Sprintf("timeout %d %d %s", h, rd-1, "PrecommitWait")
+			default:
+				kind, op = "timeout-foreign-height", fmt.Sprintf("timeout %d %d %s", h+1, 0, "NewHeight")
+			}
+			if strings.Contains(op, " HB ") { // a fresh valid block of the current proposer, used by hostile proposals/parts
+				if _, ok := im.Blocks["HB"]; !ok || R.Chance(50) {
+					step(fmt.Sprintf("mkblock HB proposer=%d valid=1", proposerIdx()))
+				}
+			}
+			if dead {
+				return
+			}
+			before := do("digest")
+			bv := do("votes")
+			step(op)
+			r.Count("hostile." + kind)
+			if res == "PANIC" {
+				fail("peer-message-panics-the-node", "a single peer message ("+kind+") panics the consensus routine", "PANIC", "the message is dropped")
+				return
+			}
+			if !reject {
+				return
+			}
+			av := do("votes")
+			strip := func(x string) string { // the digest without what the previous op emitted
+				if i := strings.Index(x, " | "); i >= 0 {
+					return x[:i]
+				}
+				return x
+			}
+			emitted := ""
+			if i := strings.Index(res, " | "); i >= 0 {
+				emitted = strings.TrimSpace(res[i+3:])
+			}
+			if strip(before) != strip(res) || bv != av || emitted != "" {
+				fail("rejected-message-changes-state", "a peer message that fails validation ("+kind+") changed the consensus state", strip(res)+" "+av+" emitted="+emitted, strip(before)+" "+bv)
+			}
+		}
 		actions := R.Range(15, 70)
 		for a := 0; a < actions; a++ {
 			if dead {
@@ -238,6 +364,10 @@ func main() {
 			h, rd, st := state()
 			if h > 3 {
 				break
+			}
+			if r.Mode == "hostile" && R.Chance(45) {
+				hostile(h, rd, st)
+				continue
 			}
 			c := R.Intn(100)
 			switch {
@@ -411,6 +541,52 @@ func main() {
 			}
 			_, _, st2 := state()
 			r.Distinct(fmt.Sprintf("n=%d st=%s lr=%v", n, st2, strings.Contains(res, "lb=-")))
+		}
+		// ---- C08/C12: not wedged. After the hostile prefix the other validators (holding > 2/3)
+		// behave honestly: they precommit one fresh valid block in a round nobody has used, and
+		// serve its parts. The node must commit the height.
+		if r.Mode == "hostile" && !dead && (total-powers[me])*3 > total*2 {
+			h, rd, st := state()
+			fin := fmt.Sprintf("F%d", q)
+			if st == "Commit" { // it already saw +2/3 precommits for a block and waits for its parts
+				d := do("digest")
+				for _, f := range strings.Fields(d) {
+					if strings.HasPrefix(f, "pp=") {
+						fin = f[3:]
+					}
+				}
+				if _, ok := im.Blocks[fin]; !ok {
+					fin = ""
+				}
+			} else {
+				step(fmt.Sprintf("mkblock %s proposer=%d valid=1", fin, proposerIdx()))
+				r2 := rd + 20
+				for v := 0; v < n && !dead; v++ {
+					if v != me {
+						k := rk{r2, 2}
+						if recv[k] == nil {
+							recv[k] = map[int]string{}
+						}
+						if _, dup := recv[k][v]; !dup {
+							recv[k][v] = fin
+						}
+						step(fmt.Sprintf("vote t=2 h=%d r=%d idx=%d addr=%x block=%s ok=1 peer=f%d_%d", h, r2, v, im.C.Addr(v), fin, q, v))
+					}
+				}
+			}
+			if fin != "" && !dead {
+				h1, r1, _ := state()
+				if h1 == h {
+					step(fmt.Sprintf("parts %s h=%d r=%d", fin, h, r1))
+					step("drain")
+				}
+				h2, _, _ := state()
+				r.Count("finish.attempted")
+				if !dead && h2 != h+1 {
+					ledgerOff = false
+					fail("node-wedged-after-hostile-input", fmt.Sprintf("the other validators (> 2/3) precommitted block %s and served its parts, but the node did not commit height %d", fin, h), res, fmt.Sprintf("COMMIT(%d,%s)", h, fin))
+				}
+			}
 		}
 		_ = sort.Ints
 	}
